@@ -24,6 +24,7 @@ package atomicfile
 //@        missing = missing && !(e == nil && b == f.name); assert @destination_never_missing_after_rename !missing
 //@   ensures @success_means_complete_file_renamed_into_place ret0 == nil ==> renamed
 //@   ensures @handle_released_on_success ret0 == nil ==> f.File == nil
+//@   ensures @a_failed_commit_keeps_the_handle_so_that_close_removes_the_temp_file ret0 != nil ==> f.File == old(f.File)
 //@   modifies f.File
 //@
 //@ func (*atomicFile).Close
